@@ -83,6 +83,16 @@ def cell_disjoint_region(cx: Ctx, cell, reg) -> Optional[str]:
 
 def witness(cx: Ctx, cell, reg) -> Optional[Dict[str, int]]:
     """concrete integers (within the true supports) where the cell lies in the region"""
+    if reg is not None and reg[0] == 'border':
+        # the four lines of the boundary, as boxes
+        z, one = Aff.const(0), Aff.const(1)
+        H, W = Aff.sym('h'), Aff.sym('w')
+        for box in (('box', z, z, z, W - one), ('box', H - one, H - one, z, W - one),
+                    ('box', z, H - one, z, z), ('box', z, H - one, W - one, W - one)):
+            r = witness(cx, cell, box)
+            if r is not None:
+                return r
+        return None
     if reg is None or reg[0] not in ('cell', 'box'):
         return None
     syms = list(cx.order)
